@@ -310,6 +310,19 @@ def r08_5(ctx) -> None:
         ctx.check(okm, "R08.5", fn, fn.node, f"{fn.short}", f"PBES2 {m} does not derive the KEK from the password with (decoded p2s, p2c) and AES-key-wrap the CEK with it: {got[:2]}",
                   "kek = PBKDF2(password, p2s, p2c); key_wrapping.(un)wrap_cek(..., kek)", construct=f"PBES2 {m}")
     enc = pb.methods["encrypt_cek"]
+    # a salt / count is generated exactly when the caller's headers carry none: the generating branch is controlled by the
+    # absence of that very member
+    cfge = cfg_of(enc)
+    for member, marker in (("p2s", "secrets.token_bytes("), ("p2c", ".DEFAULT_P2C")):
+        gens = [x for x in cfge.nodes if x.kind == "stmt" and isinstance(x.ast, ast.Assign) and marker in norm(x.ast.value)]
+        okg = bool(gens)
+        for g in gens:
+            ctl = [t_ for t_ in cfge.nodes if t_.kind == "test" and isinstance(t_.ast, ast.Compare) and len(t_.ast.ops) == 1 and isinstance(t_.ast.ops[0], (ast.In, ast.NotIn))
+                   and const_value(t_.ast.left) == member and resolve_all(eng, enc, t_.ast.comparators[0]) == ["recipient.headers()"]]
+            absent = [(t_, "false" if isinstance(t_.ast.ops[0], ast.In) else "true") for t_ in ctl]
+            okg = okg and bool(absent) and all(g not in cfge.reachable(cfge.entry, edge_filter=lambda a, b, lab, _t=t_, _l=lab_: not (a is _t and lab == _l)) for t_, lab_ in absent)
+        ctx.check(okg, "R08.5", enc, enc.node, f"{enc.short} :: {member} generated iff absent", f"the PBES2 {member} is not generated exactly when the recipient's headers carry no {member!r} "
+                  "(a caller-chosen value would be overridden, or a missing one not replaced)", f"if '{member}' not in headers: generate", construct=f"{member} presence condition")
     hdr = [n for n in fn_nodes(enc) if isinstance(n, ast.Call) and isinstance(n.func, ast.Attribute) and n.func.attr == "add_header" and const_value(n.args[0]) == "p2s"]
     okp = len(hdr) == 1
     if okp:
